@@ -372,6 +372,13 @@ func (e *lsEnv) worldFPTerm(optsHash string) (string, map[string]uint64) {
 		} else {
 			ss = append(ss, cPair(cStr(c), "None"))
 		}
+		if rp.kind == "work" {
+			if st, err := os.Stat(filepath.Join(e.w, c, ".git", ".git")); err == nil && st.IsDir() {
+				fp := e.internFP(optsHash + "|" + e.head[0] + "||")
+				m[c+"/.git"] = fp
+				ss = append(ss, cPair(cStr(c+"/.git"), cSome(cN(fp))))
+			}
+		}
 	}
 	if len(ss) == 0 {
 		return "(@nil (list N * option N))", m
